@@ -303,6 +303,63 @@ impl<E> CQueue<E> {
     }
 }
 
+/// Verification hooks (only with `--cfg petrichorit_des_verif`).
+#[cfg(petrichorit_des_verif)]
+pub mod verif {
+    pub use super::alloc::verif::*;
+    pub use super::alloc::{CQueueLLAllocator, CQueueLLAllocatorInner};
+    use std::time::Duration;
+
+    /// An abstract view of the internal state of a `CQueue`.
+    #[derive(Debug, Clone, PartialEq, Eq)]
+    pub struct Snapshot {
+        pub head: usize,
+        pub t0: Duration,
+        pub t1: Duration,
+        pub t_current: Duration,
+        pub len: usize,
+        /// `(time, id)` of the zero-delay bucket, front first
+        pub zero: Vec<(Duration, usize)>,
+        /// `(time, id)` of every bucket, front first
+        pub buckets: Vec<Vec<(Duration, usize)>>,
+        /// prev/next symmetry and cached lengths of all bucket lists
+        pub links_ok: bool,
+    }
+
+    impl<E> super::CQueue<E> {
+        #[must_use]
+        pub fn verif_snapshot(&self) -> Snapshot {
+            let mut links_ok = true;
+            let mut buckets = Vec::with_capacity(self.buckets.len());
+            for b in &self.buckets {
+                let (items, ok) = b.verif_items();
+                links_ok &= ok;
+                buckets.push(items);
+            }
+            Snapshot {
+                head: self.head,
+                t0: self.t0,
+                t1: self.t1,
+                t_current: self.t_current,
+                len: self.len,
+                zero: self
+                    .zero_event_bucket
+                    .iter()
+                    .map(|(_, time, id)| (*time, *id))
+                    .collect(),
+                buckets,
+                links_ok,
+            }
+        }
+
+        /// The allocator of this queue.
+        #[must_use]
+        pub fn verif_alloc(&self) -> &CQueueLLAllocatorInner {
+            &self.alloc
+        }
+    }
+}
+
 impl<E> Default for CQueue<E> {
     fn default() -> Self {
         Self::new(1024, Duration::from_millis(5))
